@@ -2,7 +2,7 @@
   Per-program evaluation of the DECIDABLE hypotheses of `C01_composition` / `C01_middle` / `C12_of_linkChecks`
   and of the decidable content of the links of `C12_chain`: used by the checks C01 and C12 on every accepted
   program of a run (request `links <file.sc>` of sccmodel).
-  One line: `OK [validMain|noValidMain] [sequenced] [labelUnsafe] [frag] [int] [overCapacity]` | `REJECTED ..` | `FAIL <names of failing checks>`.
+  One line: `OK [validMain|noValidMain] [sequenced] [labelUnsafe] [frag] [int] [data] [overCapacity]` | `REJECTED ..` | `FAIL <names of failing checks>`.
 
   * the hypotheses proper (the theorems take them as `… = true`):
       `noMainCall`   `Scc.Fun.noMainCall p'`              (only reported for programs with a valid `main`)
@@ -17,6 +17,17 @@
       `C01_intChecks p'` is reported as the TAG `int`: the back end of the program is in the integer fragment
                      (`IntProg`, `ProgInRange`, capacity, the routine text loads) in which the x86-64 link is
                      a theorem (`C01_x86_int`); `frag int` together: `C01_int_fragment`, no hypothesis left.
+      `C01_dataChecks p'` (Props/C01DataChecks.lean) is reported as the TAG `data`: THE hypothesis of
+                     `C01_data_fragment` (Props/C01Final.lean) — fun2core's fragment (`C01_fragChecks`, so `data`
+                     implies `frag`), no closures in the linearized program (`DataProg`: no `create` / `invoke`),
+                     and the decidable side conditions `C01_backChecks` of the x86-64 link with the heap
+                     (label-safe and text-safe names, `progCap ≤ 133`, ranges, distinct labels and size of the
+                     routine, size of the mock code).  For such programs C01 holds END TO END with no
+                     hypothesis left (Theorem A ∘ Theorem B with the heap: `X86.C06_data_programs`).  A program in
+                     which `main` calls another definition is never `data` (the continuation `_Cont` is a
+                     closure: `create` / `invoke`).  On /repo/examples + /verif/gen/corpus (232 accepted programs
+                     with a valid `main`): `frag` 106, `int` 18, `data` 19 (every `int` program and
+                     fun2core/s26_exit_leaf_lit.sc).
       `C01_capacity p'` is reported as the TAG `overCapacity` when it FAILS: the static capacity condition of
                      Theorem A (`C06Generic.ProgWithinCapacity` of S5: fewer than 500000 live variables in
                      every reachable context), a hypothesis of part (3) of `C01_middle` and of the lemmas through
@@ -29,6 +40,7 @@
 -/
 import Scc.Props.C12
 import Scc.Props.C01Checks
+import Scc.Props.C01DataChecks
 open Scc Scc.Pipeline Scc.Props
 
 namespace Scc.Pipeline.Links
@@ -68,6 +80,7 @@ def linksLine (src : String) : String :=
             (if C01_labelSafe p' then "" else " labelUnsafe") ++
             (if C01_fragChecks p' then " frag" else "") ++
             (if C01_intChecks p' then " int" else "") ++
+            (if C01_dataChecks p' then " data" else "") ++
             (if C01_capacity p' then "" else " overCapacity")
         else "FAIL " ++ " ".intercalate bad
 
